@@ -464,7 +464,7 @@ def parse_triples(out):
     return [tuple(nums[i:i + 3]) for i in range(0, len(nums), 3)]
 
 
-def eval_steps(wd, name, imports, scenarios_terms, checker, defs="", shards=NPROC, timeout=1500):
+def eval_steps(wd, name, imports, scenarios_terms, checker, defs="", shards=NPROC, timeout=1500, sc_defs=None):
     """scenarios_terms: list (one per scenario) of lists of Gallina step terms.
     `checker : step -> N` returns a mismatch mask (0 = agrees).
     Returns list of (scenario index, step index, mask) for the mismatching steps."""
@@ -484,7 +484,10 @@ def eval_steps(wd, name, imports, scenarios_terms, checker, defs="", shards=NPRO
     for sidx, idxs in enumerate(buckets):
         if not idxs:
             continue
-        body = [CASE_HEADER, imports, defs, "Definition cases := ["]
+        body = [CASE_HEADER, imports, defs]
+        if sc_defs:
+            body += [sc_defs[i] for i in idxs]
+        body.append("Definition cases := [")
         body.append(";\n".join("(%s, [\n  %s])" % (gn(i), ";\n  ".join(scenarios_terms[i])) for i in idxs))
         body.append("].")
         body.append("Eval vm_compute in (failing_steps (%s) cases)." % checker)
